@@ -1400,6 +1400,10 @@ void BSSubIndexTriShape::GetSegmentation(NifSegmentationInfo& inf, std::vector<i
 			inf.segs[i].subs[j].partID = partID++;
 			arrayIndex++;
 
+			// A partially loaded shape can have fewer data records than sub segments
+			if (static_cast<size_t>(arrayIndex) >= segmentation.subSegmentData.dataRecords.size())
+				continue;
+
 			const BSSITSSubSegmentDataRecord& rec = segmentation.subSegmentData.dataRecords[arrayIndex];
 			inf.segs[i].subs[j].userSlotID = rec.userSlotID < 30 ? 0 : rec.userSlotID;
 			inf.segs[i].subs[j].material = rec.material;
